@@ -1,15 +1,15 @@
 #!/bin/bash
-# usage: tools/adopt_seed.sh <ID> <A|B>
+# usage: [SEED_ROOT=/tmp/seed2] tools/adopt_seed.sh <ID> <A|B> [<target letter>]
 # confirm a sub-agent's seeded change in a scratch worktree of /repo HEAD, then keep it under seeded/
-ID="$1"; X="$2"
-SRC=/tmp/seed/$ID
+ID="$1"; X="$2"; T="${3:-$2}"
+SRC=${SEED_ROOT:-/tmp/seed}/$ID
 WT=$(mktemp -d /tmp/adopt.XXXXXX)
 rmdir "$WT"
 git -C /repo worktree add --detach "$WT" HEAD >/dev/null 2>&1 || { echo "$ID-$X: cannot create worktree"; exit 2; }
 cleanup() { git -C /repo worktree remove --force "$WT" >/dev/null 2>&1; rm -rf "$WT" "$DD"; }
 trap cleanup EXIT
 cd "$WT" || exit 2
-DD=$(mktemp -d /tmp/adoptdemo.XXXXXX); cp "$SRC/demo_$X.py" "$DD/demo.py"   # not next to another spydrnet/ (sys.path[0])
+DD=$(mktemp -d /tmp/adoptdemo.XXXXXX); cp "$SRC/demo_$X.py" "$DD/demo.py"; ln -s "$WT/example_netlists" "$DD/example_netlists"   # not next to another spydrnet/ (sys.path[0])
 run_demo() { (cd "$DD" && PYTHONPATH="$WT" timeout 600 /venv/bin/python "$DD/demo.py" >/tmp/adopt_demo_$ID$X.log 2>&1); echo $?; }
 clean_rc=$(run_demo)
 if ! git apply "$SRC/patch_$X.diff" 2>/dev/null; then
@@ -20,7 +20,7 @@ bug_rc=$(run_demo)
 tests=$(/venv/bin/python -m pytest -q -p no:cacheprovider --timeout=900 --continue-on-collection-errors 2>&1 | tail -1)
 echo "$ID-$X: demo clean rc=$clean_rc, with patch rc=$bug_rc, tests: $tests"
 if [ "$clean_rc" = "0" ] && [ "$bug_rc" != "0" ] && echo "$tests" | grep -q "4 failed, 580 passed"; then
-  D=/verif/seeded/$ID-$X; mkdir -p "$D"
+  D=/verif/seeded/$ID-$T; mkdir -p "$D"
   cp /tmp/adopt_patch_$ID$X.diff "$D/patch.diff"; cp "$SRC/demo_$X.py" "$D/demo.py"
   /venv/bin/python - "$SRC/meta_$X.json" "$D/meta.json" "$clean_rc" "$bug_rc" "$tests" <<'PY'
 import json,sys
@@ -31,7 +31,7 @@ m["confirmed"]={"worktree":"scratch worktree of /repo HEAD under /tmp (removed)"
  "commands":["git apply patch.diff","cd /tmp && PYTHONPATH=<worktree> /venv/bin/python demo.py","/venv/bin/python -m pytest -q -p no:cacheprovider --timeout=900 --continue-on-collection-errors"]}
 json.dump(m,open(dst,"w"),indent=1)
 PY
-  echo "$ID-$X: ADOPTED"
+  echo "$ID-$X: ADOPTED as $ID-$T"
 else
   echo "$ID-$X: REJECTED"
 fi
